@@ -85,7 +85,7 @@ class C04(Property):
     translators = []
     rule = ("random well-formed DAG workflows (sfv.rt.wfgen: 2..12 nodes from the real step classes — transformers, scatter/gather "
             "incl. unknown-size and depth-2 gathers, dot / cartesian combinators, conditional steps, schedule/transfer/execute job "
-            "pipelines) run on the real StreamFlowExecutor under the default asyncio order and 3 (quick) / 8 (thorough) PRNG task "
+            "pipelines) run on the real StreamFlowExecutor under the default asyncio order and 3 (quick) / 6 (thorough) PRNG task "
             "interleavings each; half of the workflows additionally with one injected failure (a transformer raising on one tag, or a "
             "scatter fed a non-list so that the exception escapes run() into the executor). Oracle per run: executor "
             "return/raise, hang watchdog, every step terminated at the moment run() exits, one termination token per port, no pending "
@@ -116,7 +116,7 @@ class C04(Property):
 
     def _plan(self, ctx: Ctx):
         if ctx.tier == "thorough":
-            n, k = 500, 8
+            n, k = 120, 6
         else:
             n, k = 50, 3
         if ctx.mode == "search":
